@@ -605,7 +605,7 @@ def rule_cap(ctx, classes=SKETCH_CLASSES):
     seen_callers = []
     for k in F.kcalls():
         if k.caller.is_kernel and k.callee.is_kernel and "value" in k.callee.params and k.caller not in seen_callers \
-                and not F.is_inlined_helper(k.caller):
+                and not F.is_inlined_helper(k.caller) and k.caller.module.short != "hashes" and k.callee.module.short != "hashes":
             seen_callers.append(k.caller)
     for caller in seen_callers:
         w = walk_kernel(F, caller)
